@@ -601,6 +601,14 @@ def finished_then_damaged(cfg, how, n, api, seed=0):
         t = loop.create_task(consume())
         loop.flush_all()
         viol = []
+        stalled = False
+        if not t.done() and pair.c._transport is not None:
+            # the damage changed an encrypted length field into a plausible larger one (CBC / CTR with a plain MAC):
+            # the receiver is waiting for the rest of a packet that never comes.  Stalling is what the property
+            # leaves to an attacker; the stream ends when the transport does, and then the reader must come back.
+            stalled = True
+            loop.cut(pair.ct, ConnectionResetError('cut'))
+            loop.flush_all()
         got = b''.join(r[1] for r in results if r[0] == 'data')
         if not data.startswith(got):
             viol.append(('stream-data', 'the reader got %d bytes that are not a prefix of the %d written' % (len(got), n)))
@@ -609,7 +617,7 @@ def finished_then_damaged(cfg, how, n, api, seed=0):
         elif results and results[-1][0] == 'eof' and got != data:
             viol.append(('clean-eof-after-damage', 'the reader got %d of %d bytes and then a clean end of file (channel receive state before the damage: %s)'
                          % (len(got), n, state_before)))
-        return {'viol': viol, 'state': state_before, 'got': len(got),
+        return {'viol': viol, 'state': state_before, 'got': len(got), 'stalled': stalled,
                 'loop_exc': [repr(c.get('exception') or c.get('message'))[:200] for c in loop.unretrieved()]}
     finally:
         P.done(loop)
@@ -623,6 +631,8 @@ def finished_worker(job):
             obs = finished_then_damaged(cfg, how, n, api)
             viol = obs['viol'] + ([('loop-exception', obs['loop_exc'][0])] if obs['loop_exc'] else [])
             acc.count('finished:state-before-damage:%s' % obs['state'])
+            if obs.get('stalled'):
+                acc.count('finished:receiver-stalled-until-cut')
         except Livelock as exc:
             viol = [('livelock', str(exc))]
         acc.add(core.digest(('finished', cfg, how, n, api)), transitions=1,
